@@ -406,11 +406,14 @@ int g_reads;
                starting there was written, g_src_* = which element of the written object went there
    checked_seekp / write_data may fail (exception resp. Succeeded::no; both nondeterministic); write_data may change 'scale'.
    From the property: "written values are visible to an independent reader of the file as soon as each write call
-   returns" (F: a call that returns normally leaves nothing unflushed) and "a value written through any access path
+   returns" (F: a call that returns normally leaves nothing unflushed), "read back unchanged ... whatever the ... on-disk
+   number type" (S: every reader multiplies the stored numbers with scale_factor, so a call that reports success must have
+   stored its block with exactly that factor) and "a value written through any access path
    ... is read back unchanged through every other path and no other bin changes ... whatever the storage order" (E1-E3
    as for the in-memory paths, with SPEC_OFFSET, the byte offset get_offset is proved to return). */
 long g_seek, g_foff;
 int g_dirty, g_fwrites, g_stream_null, g_stream_bad, g_nonfloat;
+int g_wrong_scale; /* a write_data call stored its block with a scale factor other than the one every reader multiplies with (scale_factor) */
 float g_scale_factor;
 long g_blk_start, g_blk_elems; /* set_segment(by view): start and size of the one block written */
 _Bool nondet_bool(void);
@@ -471,7 +474,9 @@ static inline int K_write_data(const struct PD* self, float* scale, int shape, i
             }
         }
     }
-  *scale = nondet_float();
+  *scale = nondet_float(); /* the factor write_data really used: stored number = value / *scale */
+  if (*scale != g_scale_factor)
+    g_wrong_scale = 1;
   return nondet_bool() ? 1 : 0;
 }
 #define K_PROPAGATE_OR_RETURN(val)                                                                                    \
@@ -484,15 +489,15 @@ static inline int K_write_data(const struct PD* self, float* scale, int shape, i
 #define PDS_PRE(self)                                                                                                 \
   (PD_VALID_CORE(self) && (self)->elsize == C02_E && (self)->offset_3d_data == TOTAL_SINOS(self) * C02_V * C02_T * C02_E \
    && (self)->offset >= 0 && (self)->offset < (1L << 40) && g_error == 0 && BIN_IN_RANGE(self, &g_bin) && PREFIX_FACT(self, &g_bin) \
-   && g_dirty == 0 && g_fwrites == 0 && (self)->storage_order >= Segment_AxialPos_View_TangPos && (self)->storage_order <= Unsupported)
-#define PDS_ASSIGNS g_error, g_dirty, g_seek, g_fwrites, g_src_ax, g_src_view, g_src_tang, g_blk_start, g_blk_elems
+   && g_dirty == 0 && g_fwrites == 0 && g_wrong_scale == 0 && (self)->storage_order >= Segment_AxialPos_View_TangPos && (self)->storage_order <= Unsupported)
+#define PDS_ASSIGNS g_error, g_wrong_scale, g_dirty, g_seek, g_fwrites, g_src_ax, g_src_view, g_src_tang, g_blk_start, g_blk_elems
 #define IS_G_BIN(b) ((b)->segment_num == g_bin.segment_num && (b)->axial_pos_num == g_bin.axial_pos_num && (b)->view_num == g_bin.view_num \
                      && (b)->tangential_pos_num == g_bin.tangential_pos_num && (b)->timing_pos_num == g_bin.timing_pos_num)
 /* set_bin_value: F; E1-E3 for the one element */
 #define CONTRACT_K_pds_set_bin_value                                                                                  \
   __CPROVER_requires(__CPROVER_is_fresh(self, sizeof(*self)) && __CPROVER_is_fresh(this_bin, sizeof(*this_bin)) && PDS_PRE(self) && PREFIX_FACT(self, this_bin)) \
   __CPROVER_assigns(PDS_ASSIGNS)                                                                                       \
-  __CPROVER_ensures(!g_error ==> g_dirty == 0) /* F */                                                                 \
+  __CPROVER_ensures(!g_error ==> (g_dirty == 0 && g_wrong_scale == 0)) /* F, S */                                                                 \
   __CPROVER_ensures(g_fwrites <= 1 && (g_fwrites == 1 ==> (BIN_IN_RANGE(self, this_bin) && g_foff == SPEC_OFFSET(self, this_bin)))) \
   __CPROVER_ensures((!g_error && IS_G_BIN(this_bin) && g_foff == SPEC_OFFSET(self, &g_bin)) ==> g_fwrites == 1)        \
   __CPROVER_ensures(!BIN_IN_RANGE(self, this_bin) ==> (g_error && g_fwrites == 0 && g_dirty == 0))
@@ -500,7 +505,7 @@ static inline int K_write_data(const struct PD* self, float* scale, int shape, i
 #define CONTRACT_K_pds_set_viewgram                                                                                   \
   __CPROVER_requires(__CPROVER_is_fresh(self, sizeof(*self)) && PDS_PRE(self) && VG_ARGS_OK(self, v_segment_num, v_view_num, v_timing_pos_num) && PREFIX_FACT_SEG(self, v_segment_num)) \
   __CPROVER_assigns(PDS_ASSIGNS)                                                                                       \
-  __CPROVER_ensures(!g_error ==> (g_dirty == 0 && __CPROVER_return_value == 1)) /* F: normal return = success = flushed */ \
+  __CPROVER_ensures(!g_error ==> (g_dirty == 0 && g_wrong_scale == 0 && __CPROVER_return_value == 1)) /* F, S: normal return = success = flushed */ \
   __CPROVER_ensures(g_fwrites <= 1)                                                                                    \
   __CPROVER_ensures(g_fwrites == 1 ==> (AX_IN_SEG(self, v_segment_num, g_src_ax) && TG_IN(self, g_src_tang)           \
                                          && g_foff == SPEC_OFFSET5(self, v_segment_num, g_src_ax, v_view_num, g_src_tang, v_timing_pos_num))) \
@@ -509,7 +514,7 @@ static inline int K_write_data(const struct PD* self, float* scale, int shape, i
 #define LC_K_pds_set_viewgram_0                                                                                       \
   __CPROVER_assigns(bin.axial_pos_num, scale, succeeded, PDS_ASSIGNS)                                                  \
   __CPROVER_loop_invariant(bin.axial_pos_num >= self->min_ax[segment_num - self->min_seg] && bin.axial_pos_num <= self->max_ax[segment_num - self->min_seg] + 1) \
-  __CPROVER_loop_invariant(!g_error && succeeded == 1 && bin.segment_num == segment_num && bin.view_num == view_num && bin.timing_pos_num == timing_pos && bin.tangential_pos_num == self->min_tang) \
+  __CPROVER_loop_invariant(!g_error && succeeded == 1 && g_wrong_scale == 0 && bin.segment_num == segment_num && bin.view_num == view_num && bin.timing_pos_num == timing_pos && bin.tangential_pos_num == self->min_tang) \
   __CPROVER_loop_invariant(g_fwrites >= 0 && g_fwrites <= 1)                                                           \
   __CPROVER_loop_invariant(g_fwrites == 1 ==> (g_src_ax >= self->min_ax[segment_num - self->min_seg] && g_src_ax < bin.axial_pos_num && TG_IN(self, g_src_tang) \
                                          && g_foff == SPEC_OFFSET5(self, segment_num, g_src_ax, view_num, g_src_tang, timing_pos))) \
@@ -520,7 +525,7 @@ static inline int K_write_data(const struct PD* self, float* scale, int shape, i
 #define CONTRACT_K_pds_set_sinogram                                                                                   \
   __CPROVER_requires(__CPROVER_is_fresh(self, sizeof(*self)) && PDS_PRE(self) && SG_ARGS_OK(self, s_segment_num, s_axial_pos_num, s_timing_pos_num) && PREFIX_FACT_SEG(self, s_segment_num)) \
   __CPROVER_assigns(PDS_ASSIGNS)                                                                                       \
-  __CPROVER_ensures(!g_error && (__CPROVER_return_value == 1 ==> g_dirty == 0)) /* F */                                \
+  __CPROVER_ensures(!g_error && (__CPROVER_return_value == 1 ==> (g_dirty == 0 && g_wrong_scale == 0))) /* F, S */                                \
   __CPROVER_ensures(g_fwrites <= 1)                                                                                    \
   __CPROVER_ensures(g_fwrites == 1 ==> (VW_IN(self, g_src_view) && TG_IN(self, g_src_tang)                             \
                                          && g_foff == SPEC_OFFSET5(self, s_segment_num, s_axial_pos_num, g_src_view, g_src_tang, s_timing_pos_num))) \
@@ -529,7 +534,7 @@ static inline int K_write_data(const struct PD* self, float* scale, int shape, i
 #define LC_K_pds_set_sinogram_0                                                                                       \
   __CPROVER_assigns(bin.view_num, scale, succeeded, PDS_ASSIGNS)                                                       \
   __CPROVER_loop_invariant(bin.view_num >= self->min_view && bin.view_num <= self->max_view + 1)                       \
-  __CPROVER_loop_invariant(!g_error && succeeded == 1 && bin.segment_num == segment_num && bin.axial_pos_num == ax_pos_num && bin.timing_pos_num == timing_pos && bin.tangential_pos_num == self->min_tang) \
+  __CPROVER_loop_invariant(!g_error && succeeded == 1 && g_wrong_scale == 0 && bin.segment_num == segment_num && bin.axial_pos_num == ax_pos_num && bin.timing_pos_num == timing_pos && bin.tangential_pos_num == self->min_tang) \
   __CPROVER_loop_invariant(g_fwrites >= 0 && g_fwrites <= 1)                                                           \
   __CPROVER_loop_invariant(g_fwrites == 1 ==> (g_src_view >= self->min_view && g_src_view < bin.view_num && TG_IN(self, g_src_tang) \
                                          && g_foff == SPEC_OFFSET5(self, segment_num, ax_pos_num, g_src_view, g_src_tang, timing_pos))) \
@@ -557,13 +562,79 @@ static inline int K_write_data(const struct PD* self, float* scale, int shape, i
 #define CONTRACT_K_pds_set_segment_by_sinogram                                                                        \
   __CPROVER_requires(SEG_PRE(self))                                                                                    \
   __CPROVER_assigns(PDS_ASSIGNS)                                                                                       \
-  __CPROVER_ensures(!g_error && (__CPROVER_return_value == 1 ==> g_dirty == 0)) /* F */                                \
+  __CPROVER_ensures(!g_error && (__CPROVER_return_value == 1 ==> (g_dirty == 0 && g_wrong_scale == 0))) /* F, S */                                \
   __CPROVER_ensures(ORDER_SINO(self) ? (g_fwrites <= 1 && SEG_E2(self) && (__CPROVER_return_value == 1 ==> SEG_E3(self))) \
                                      : (__CPROVER_return_value == 1 ==> SEG_BLOCK_BY_VIEW(self)))
 #define CONTRACT_K_pds_set_segment_by_view                                                                            \
   __CPROVER_requires(SEG_PRE(self))                                                                                    \
   __CPROVER_assigns(PDS_ASSIGNS)                                                                                       \
-  __CPROVER_ensures(!g_error && (__CPROVER_return_value == 1 ==> g_dirty == 0)) /* F */                                \
+  __CPROVER_ensures(!g_error && (__CPROVER_return_value == 1 ==> (g_dirty == 0 && g_wrong_scale == 0))) /* F, S */                                \
   __CPROVER_ensures(ORDER_SINO(self) ? (g_fwrites <= 1 && SEG_E2(self) && (__CPROVER_return_value == 1 ==> SEG_E3(self))) \
                                      : (__CPROVER_return_value == 1 ==> SEG_BLOCK_BY_VIEW(self)))
+
+/* ================= ProjDataFromStream read paths: get_bin_value, get_viewgram, get_sinogram =================
+   read_data(*sino_stream, <block>, on_disk_data_type, scale, on_disk_byte_order) reads the block at the get position
+   (g_seek); it may fail and returns the factor the caller still has to apply in 'scale'. Ghost: the element of the
+   returned object that belongs to g_bin: g_reads = how often it was read, g_read_off = from which byte offset;
+   g_mult = how often the object was multiplied with scale_factor, g_mult_bad = with anything else; g_unscaled = a block was
+   read with a returned factor != 1 (which the functions do not apply).
+   From the property ("read back unchanged through every other path ... whatever the storage order ... on-disk number
+   type"): R1 a call that returns normally has read the element of every bin of the object exactly once, from
+   SPEC_OFFSET(bin) - the place the write paths store it; R2 and has multiplied it exactly once with scale_factor (the
+   factor the write paths divide by), all blocks having been read with factor 1. */
+int g_mult, g_mult_bad, g_unscaled;
+long g_read_off;
+#define K_SCALE_OBJECT(x)                                                                                             \
+  do                                                                                                                  \
+    {                                                                                                                 \
+      if ((x) == g_scale_factor)                                                                                      \
+        ++g_mult;                                                                                                     \
+      else                                                                                                            \
+        ++g_mult_bad;                                                                                                 \
+    }                                                                                                                 \
+  while (0)
+static inline int K_read_data(const struct PD* self, float* scale, int shape, int seg, int ax, int vw)
+{
+  const _Bool inside = shape == 0 ? 1 : shape == 1 ? (g_bin.axial_pos_num == ax && g_bin.view_num == vw) : shape == 2 ? g_bin.view_num == vw : g_bin.axial_pos_num == ax;
+  if (inside && g_bin.segment_num == seg)
+    {
+      const long tg = g_bin.tangential_pos_num - self->min_tang;
+      const long k = shape == 0 ? 0 : shape == 1 ? tg : shape == 2 ? (long)(g_bin.axial_pos_num - self->min_ax[seg - self->min_seg]) * C02_T + tg
+                                                                   : (long)(g_bin.view_num - self->min_view) * C02_T + tg;
+      ++g_reads;
+      g_read_off = g_seek + k * C02_E;
+    }
+  *scale = nondet_float();
+  if (*scale != 1.F)
+    g_unscaled = 1;
+  return nondet_bool() ? 1 : 0;
+}
+#define PDS_READ_PRE(self) (PDS_PRE(self) && g_reads == 0 && g_mult == 0 && g_mult_bad == 0 && g_unscaled == 0 && g_scale_factor == g_scale_factor)
+#define PDS_READ_ASSIGNS g_error, g_seek, g_reads, g_read_off, g_mult, g_mult_bad, g_unscaled
+#define READ_OK (g_reads == 1 && g_read_off == SPEC_OFFSET(self, &g_bin) && g_mult == 1 && g_mult_bad == 0 && g_unscaled == 0)
+#define CONTRACT_K_pds_get_bin_value                                                                                  \
+  __CPROVER_requires(__CPROVER_is_fresh(self, sizeof(*self)) && __CPROVER_is_fresh(this_bin, sizeof(*this_bin)) && PDS_READ_PRE(self) && PREFIX_FACT(self, this_bin)) \
+  __CPROVER_assigns(PDS_READ_ASSIGNS)                                                                                  \
+  __CPROVER_ensures((!g_error && IS_G_BIN(this_bin)) ==> READ_OK)                                                      \
+  __CPROVER_ensures(!BIN_IN_RANGE(self, this_bin) ==> (g_error && g_reads == 0))
+#define CONTRACT_K_pds_get_viewgram                                                                                   \
+  __CPROVER_requires(__CPROVER_is_fresh(self, sizeof(*self)) && PDS_READ_PRE(self) && SAME_VG(segment_num, view_num, timing_pos)) \
+  __CPROVER_assigns(PDS_READ_ASSIGNS)                                                                                  \
+  __CPROVER_ensures(!g_error ==> READ_OK)
+#define LC_K_pds_get_viewgram_0                                                                                       \
+  __CPROVER_assigns(bin.axial_pos_num, scale, succeeded, PDS_READ_ASSIGNS)                                             \
+  __CPROVER_loop_invariant(bin.axial_pos_num >= self->min_ax[segment_num - self->min_seg] && bin.axial_pos_num <= self->max_ax[segment_num - self->min_seg] + 1) \
+  __CPROVER_loop_invariant(!g_error && succeeded == 1 && g_unscaled == 0 && scale == 1.F && g_mult == 0 && g_mult_bad == 0 && bin.segment_num == segment_num && bin.view_num == view_num && bin.timing_pos_num == timing_pos && bin.tangential_pos_num == self->min_tang) \
+  __CPROVER_loop_invariant(g_reads == (g_bin.axial_pos_num < bin.axial_pos_num ? 1 : 0) && (g_reads == 1 ==> g_read_off == SPEC_OFFSET(self, &g_bin))) \
+  __CPROVER_decreases(self->max_ax[segment_num - self->min_seg] + 1 - bin.axial_pos_num)
+#define CONTRACT_K_pds_get_sinogram                                                                                   \
+  __CPROVER_requires(__CPROVER_is_fresh(self, sizeof(*self)) && PDS_READ_PRE(self) && SAME_SG(segment_num, ax_pos_num, timing_pos)) \
+  __CPROVER_assigns(PDS_READ_ASSIGNS)                                                                                  \
+  __CPROVER_ensures(!g_error ==> READ_OK)
+#define LC_K_pds_get_sinogram_0                                                                                       \
+  __CPROVER_assigns(bin.view_num, scale, succeeded, PDS_READ_ASSIGNS)                                                  \
+  __CPROVER_loop_invariant(bin.view_num >= self->min_view && bin.view_num <= self->max_view + 1)                       \
+  __CPROVER_loop_invariant(!g_error && succeeded == 1 && g_unscaled == 0 && scale == 1.F && g_mult == 0 && g_mult_bad == 0 && bin.segment_num == segment_num && bin.axial_pos_num == ax_pos_num && bin.timing_pos_num == timing_pos && bin.tangential_pos_num == self->min_tang) \
+  __CPROVER_loop_invariant(g_reads == (g_bin.view_num < bin.view_num ? 1 : 0) && (g_reads == 1 ==> g_read_off == SPEC_OFFSET(self, &g_bin))) \
+  __CPROVER_decreases(self->max_view + 1 - bin.view_num)
 #endif
